@@ -134,9 +134,16 @@ def upstream(rng, n, alt_det, hostile=True):
             alt[18] = 1e300
             alt[19], l[19] = at_det, float((L * np.cos(theta))[19])
             alt[20] = -np.inf
+            # out-of-range decays whose *view angle* is undefined: an infinite decay length and altitude
+            # (a decay random number of exactly 0 gives inf - inf) and a decay at the detector seen along
+            # the axis (0 / 0), far above the range
+            alt[21], l[21] = np.inf, np.inf
+            alt[22], l[22] = 40.0, float(L[22])
         # viewed exactly along the shower axis: the parametrised field is certainly non-zero there
         theta = np.array(theta, copy=True)
         theta[[0, 11, 12, 13]] = 0.0
+    if m > 24:
+        theta[22] = 0.0
         theta[14 :: max(1, m // 40)] = 0.0
     return cfg, beta, alt, l, theta, L, np.asarray(se)
 
@@ -180,6 +187,7 @@ def relations(ctx, si, payload):
     rng = ctx.subrng("c20-rel", si)
     if si == payload.get("witness_shard", -1):
         fixed_witness_decay_at_detector_altitude(ctx)
+        dtype_monitor(ctx)
     for det in payload["dets"]:
         for tec, band in payload["variants"]:
             n = payload["n"]
@@ -318,6 +326,36 @@ def bands(ctx, si, payload):
     ctx.distinct.add_rows(np.array([b[0] for b in payload["bands"]], float), np.array([b[1] for b in payload["bands"]], float))
 
 
+def dtype_monitor(ctx):
+    """The same (exactly representable) event values as half / single precision and integer arrays give
+    the SNR the float64 arrays give."""
+    from nuspacesim.config import NssConfig
+
+    cfg = NssConfig()
+    n = 24
+    k = np.arange(n)
+    base = [np.radians(2.0 + k).astype(np.float16).astype(np.float64), (0.5 + 0.25 * k).astype(np.float64) % 8.0, (4.0 + k).astype(np.float64), np.full(n, 2.0**-6), (900.0 + 64.0 * k).astype(np.float64), np.full(n, 2.0)]
+    try:
+        with np.errstate(all="ignore"):
+            _, want = chain(cfg, tuple(x.copy() for x in base), stub=0.4)
+    except Exception as e:
+        ctx.exception("raises", "radio chain raised on a plain float64 batch", e, {})
+        return
+    for nm, idx, dt in (("float16 path lengths", (4,), np.float16), ("all six columns float16", (0, 1, 2, 3, 4, 5), np.float16), ("all six columns float32", (0, 1, 2, 3, 4, 5), np.float32), ("integer shower energies", (5,), np.int64), ("integer decay lengths", (2,), np.int32)):
+        args = [x.copy() for x in base]
+        for i in idx:
+            args[i] = args[i].astype(dt)
+        ctx.count("dtype")
+        try:
+            with np.errstate(all="ignore"):
+                _, got = chain(cfg, tuple(args), stub=0.4)
+            if not (got.shape == want.shape and np.all(np.abs(got - want) <= 1e-9 * np.abs(want))):
+                i = int(np.argmax(np.abs(np.nan_to_num(got, nan=np.inf) - want) / np.maximum(np.abs(want), 1e-300))) if got.shape == want.shape else 0
+                ctx.violation("dtype", f"radio chain with {nm}: event {i} has SNR {got[i] if got.shape == want.shape else got!r}; the same numbers as float64 give {want[i]!r}", {"case": nm})
+        except Exception as e:
+            ctx.exception("dtype", f"radio chain with {nm} raised", e, {"case": nm})
+
+
 def history(ctx, si, payload):
     """One EASRadio object reused across calls while its configuration's band / batch size change."""
     from nuspacesim.simulation.eas_radio.radio import EASRadio
@@ -449,7 +487,7 @@ def run(ctx):
         P.append({"kind": "fullbands", "bands": fb[i::2], "seed": 41 + ctx.seed})
     core.run_shards(ctx, "nssmon.checks.c20", "entry", P, workers=16, timeout=ctx.pick(900, 5000))
     ctx.exhaustive_subspaces.append("all 13 695 frequency bands 10a <= lo < hi <= 1650 MHz")
-    for m in ("fullrun-bands", "energy", "antennas", "order", "order-big-batch", "finite", "range", "range-inside", "bands", "bands-snr", "absolute", "history"):
+    for m in ("dtype", "fullrun-bands", "energy", "antennas", "order", "order-big-batch", "finite", "range", "range-inside", "bands", "bands-snr", "absolute", "history"):
         ctx.require(m)
     if ctx.mon.get("bands", 0) != len(allb):
         ctx.inconclusive_because(f"only {ctx.mon.get('bands', 0)} of {len(allb)} bands were enumerated")
